@@ -25,9 +25,10 @@ VARIABLES l,
           tc,        \* [<<w, wi, a>> -> Terminated(a) received by instance wi of w]
           pscount,   \* [name -> PostStop executions]
           watching, unw, unwAtPs, owed,
-          sysret
+          sysret,
+          gst        \* [grain -> "active" | "off"]
 
-vars == <<l, names, par, base, ist, lastd, open, retStopped, tc, pscount, watching, unw, unwAtPs, owed, sysret>>
+vars == <<l, names, par, base, ist, lastd, open, retStopped, tc, pscount, watching, unw, unwAtPs, owed, sysret, gst>>
 
 Bad(prop, what) == PrintT(<<"MISMATCH", prop, l, what>>)
 Check(cond, prop, what) == IF cond THEN TRUE ELSE Bad(prop, what)
@@ -46,7 +47,7 @@ RegAs(d, key) == \E j \in 1..Len(d) : d[j].n = key[1] /\ d[j].i = key[2]
 AliveRegDesc(n) == {key \in Keys : key[1] \in DescOf(n) /\ ist[key].alive /\ RegAs(lastd, key)}
 
 Init == /\ l = 1 /\ names = {} /\ par = <<>> /\ base = 0 /\ ist = <<>> /\ lastd = <<>> /\ open = <<>>
-        /\ retStopped = {} /\ tc = <<>> /\ pscount = <<>> /\ watching = {} /\ unw = {} /\ unwAtPs = <<>> /\ owed = {} /\ sysret = FALSE
+        /\ retStopped = {} /\ tc = <<>> /\ pscount = <<>> /\ watching = {} /\ unw = {} /\ unwAtPs = <<>> /\ owed = {} /\ sysret = FALSE /\ gst = <<>>
 
 SpawnOps == {"spawn", "spawnfn", "spawnchild"}
 
@@ -78,8 +79,13 @@ Checks(e) ==
     [] e.ev = "ret" /\ e.ok = 1 /\ e.op = "actorof" ->
          Check(<<e.n, e.i>> \notin open[e.t].dead, "C09", "ActorOf resolved an actor whose Stop had already returned")
     [] e.ev = "ret" /\ e.op = "sysstop" ->
-         Check({key \in Keys : ist[key].alive} = {}, "C17", "an actor is still alive after ActorSystem.Stop returned")
-    [] e.ev = "ret" /\ e.ok = 1 /\ e.op = "tell" ->
+         /\ Check({key \in Keys : ist[key].alive} = {}, "C17", "an actor is still alive after ActorSystem.Stop returned")
+         /\ Check(\A g \in DOMAIN gst : gst[g] # "active", "C17", "an active grain was not deactivated by ActorSystem.Stop")
+    [] e.ev = "gdeact" ->
+         Check(Get(gst, e.n, "off") = "active", "C17", "a grain was deactivated twice (or without being active)")
+    [] e.ev = "ghandle" ->
+         Check(~sysret, "C17", "a grain handled a message after ActorSystem.Stop returned")
+    [] e.ev = "ret" /\ e.ok = 1 /\ e.op \in {"tell", "tellg"} ->
          Check(~sysret, "C17", "a send was accepted after ActorSystem.Stop returned")
     [] e.ev = "End" /\ e.run = 1 ->
          LET live == {key \in Keys : ist[key].alive}  d == e.d
@@ -140,7 +146,12 @@ Step ==
                      [] OTHER -> unwAtPs
      /\ owed' = CASE e.ev = "New" -> {}
                   [] e.ev = "psexit" -> owed \cup {<<a[1], a[2], e.n>> : a \in {b \in Keys : ist[b].alive /\ <<b[1], e.n>> \in watching}}
+                  [] e.ev = "call" /\ e.op = "unwatch" -> {o \in owed : ~(o[1] = e.w /\ o[3] = e.n)}   \* it may win the race with the snapshot
                   [] OTHER -> owed
+     /\ gst' = CASE e.ev = "New" -> <<>>
+                 [] e.ev = "gact" -> Upd(gst, e.n, "active")
+                 [] e.ev = "gdeact" -> Upd(gst, e.n, "off")
+                 [] OTHER -> gst
      /\ sysret' = CASE e.ev = "New" -> FALSE
                     [] e.ev = "ret" /\ e.op = "sysstop" -> TRUE
                     [] OTHER -> sysret
